@@ -46,12 +46,13 @@ META = {
         "zoneinfo / plain timedelta arithmetic (not pytz). Instants where zoneinfo and pytz disagree on the offset are "
         "excluded and counted. distinct_nontrivial = distinct (expression shape, offset kind, due?) classes."
         " Zones whose DST switch falls inside a UTC hour (Australia/Adelaide, Lord_Howe in October, America/St_Johns) on their transition days."
+        " Schedules carrying a `time` (past, within the minute, a day ahead) besides the cron expression: the expression alone decides."
     ),
     "assumptions": [
         "the wall clock is the scripted one (run.datetime patched harness-side); shards run with the process' local zone (TZ) set to UTC, Asia/Tokyo or America/New_York and with naive now() at UTC or UTC+5:30: none of it may matter",
         "the system tzdata (zoneinfo) is the reference for zone offsets; random instants of the quantifier are sampling and not performed",
     ],
-    "required_counters": ["due", "not_due", "zone_evals", "td_evals"],
+    "required_counters": ["due", "not_due", "zone_evals", "td_evals", "cron_and_time_evals"],
     "bounds": {"quick": {"days": len(DAYS_QUICK)}, "thorough": {"days": len(DAYS_THOROUGH)}},
 }
 
@@ -166,6 +167,22 @@ def _run_shard(shard: Dict[str, Any]) -> Dict[str, Any]:
                                 f"now={holder[0].isoformat()} offset={okey} local={local.isoformat()} expr={expr!r}: get_task_delay={got!r}, expected {'0 (due)' if want else 'None (not due)'}",
                                 {"now": holder[0].isoformat(), "offset": okey, "expr": expr, "want": want},
                             )
+                if minute % 60 in (7, 38):
+                    # a schedule that carries a `time` as well: the cron expression alone decides
+                    holder[0] = base
+                    for expr, want, shape in cases[:4]:
+                        for t_off in (-3600, 30, 86400):
+                            st = ScheduledTask(task_name="t", labels={}, args=[], kwargs={}, cron=expr, cron_offset=off,
+                                               time=base + dt.timedelta(seconds=t_off))
+                            got = run.get_task_delay(st)
+                            acc.evaluations += 1
+                            acc.count("cron_and_time_evals")
+                            if not ((got == 0 and got is not None and want) or (got is None and not want)):
+                                acc.violation(
+                                    f"{'missed' if want else 'spurious'}-with-time-{okey.split(':')[0]}",
+                                    f"now={base.isoformat()} offset={okey} expr={expr!r} time=now{t_off:+d}s: get_task_delay={got!r}, the cron expression says {'due' if want else 'not due'}",
+                                    {"now": base.isoformat(), "offset": okey, "expr": expr, "want": want, "time_offset_s": t_off},
+                                )
                 if okey in ("none", "td:5:30:00", "zone:Asia/Kathmandu", "zone:America/New_York", "zone:Australia/Lord_Howe", "td:-1 day, 22:00:00"):
                     holder[0] = base
                     for expr in GRAMMAR:
@@ -196,7 +213,8 @@ def replay(obj: Dict[str, Any]) -> int:
     now = dt.datetime.fromisoformat(obj["now"])
     clock.install(lambda: now)
     try:
-        got = run.get_task_delay(ScheduledTask(task_name="t", labels={}, args=[], kwargs={}, cron=obj["expr"], cron_offset=off))
+        extra = {"time": now + dt.timedelta(seconds=obj["time_offset_s"])} if "time_offset_s" in obj else {}
+        got = run.get_task_delay(ScheduledTask(task_name="t", labels={}, args=[], kwargs={}, cron=obj["expr"], cron_offset=off, **extra))
     finally:
         clock.uninstall()
     print(f"now={obj['now']} offset={obj['offset']} expr={obj['expr']!r} -> {got!r}; expected {'due' if obj['want'] else 'not due'}")
